@@ -1,7 +1,31 @@
 #!/bin/sh
-# runs every claimed quick check sequentially on the current tree and summarises
-cd /verif
+# Emulates the acceptance run: offline environment, setup_cmd, then every claimed check of the
+# given tier once, sequentially, each with its evidence file removed first; validates the
+# rewritten evidence against the schema copy.  Logs go to .work/runall/ (ignored).
+cd "$(dirname "$0")/.."
+tier=${1:-quick}
+export CARGO_NET_OFFLINE=true GOPROXY=off PIP_NO_INDEX=1 VERIF_SEED=${VERIF_SEED:-1} VERIF_TIER=$tier
+mkdir -p .work/runall
+./setup.sh > .work/runall/setup.log 2>&1 || { echo "setup failed"; cat .work/runall/setup.log; exit 3; }
+bad=0
 for p in $(python3 -c "import json; print(' '.join(c['property_id'] for c in json.load(open('MANIFEST.json'))['checks']))"); do
-  s=$(date +%s); ./check $p --tier ${1:-quick} > /tmp/runall_$p.log 2>&1; rc=$?; e=$(date +%s)
-  echo "$p exit=$rc $((e-s))s $(tail -1 /tmp/runall_$p.log | cut -c1-150)"
+  rm -f evidence/$p.json
+  s=$(date +%s); ./check $p --tier $tier > .work/runall/$p.log 2>&1; rc=$?; e=$(date +%s)
+  v=$(grep -c "^VIOLATION" .work/runall/$p.log)
+  ok=$(.venv/bin/python - "$p" <<'PY'
+import json, sys, jsonschema
+p = sys.argv[1]
+try:
+    ev = json.load(open(f"evidence/{p}.json"))
+    jsonschema.validate(ev, json.load(open("vk/EVIDENCE.schema.json")))
+    c = ev["coverage"]
+    assert c["obligations"] == c["discharged"] >= 1, (c["obligations"], c["discharged"])
+    print("evidence-ok")
+except Exception as e:
+    print("EVIDENCE-BAD", str(e).splitlines()[0][:120])
+PY
+)
+  [ "$rc" = 0 ] && [ "$v" = 0 ] && [ "$ok" = evidence-ok ] || bad=1
+  echo "$p exit=$rc violations=$v $ok $((e-s))s $(tail -1 .work/runall/$p.log | cut -c1-150)"
 done
+exit $bad
